@@ -68,3 +68,6 @@ CFG["manifest"] = dict(
           "gen/glbfacts (source -> access table); the Go race detector; extraction + OCaml glue (cross-checked by vm_compute on sampled lines); Go harness."),
     technique="Coq proof (LTS invariants, refinement reused from C11, lockset discipline) + stress correspondence under the race detector",
 )
+
+import tables  # constant tables / literals of the current source proved equal to the model's on every run (lib/tables.py)
+CFG["secondary"] = CFG.get("secondary", []) + [tables.C12_TABLES]
